@@ -142,6 +142,9 @@ package datatypes
 //@   ghost-exit G.lastReceived := len(ops)
 //@   ensures[counted] G.receiveCalls == old(G.receiveCalls) + 1 && G.lastReceived == len(ops)
 //@   loop 0 invariant[ghost-untouched] G.receiveCalls == old(G.receiveCalls)
+//@   loop 0 invariant[units-so-far] i == 0 ==> G.execUnits == old(G.execUnits)
+//@   loop 0 invariant[first-unit-was-complete] i > 0 && len(ops) >= 1 && ops[0].OpType == model.TypeOfOperation_TRANSACTION ==> operations.announced(ops[0]) >= 1 && operations.announced(ops[0]) <= len(ops)
+//@   ensures[malformed-first-unit-applies-nothing] len(ops) >= 1 && ops[0].OpType == model.TypeOfOperation_TRANSACTION && (operations.announced(ops[0]) < 1 || operations.announced(ops[0]) > len(ops)) ==> result1 != nil && G.execUnits == old(G.execUnits)
 //@   loop 0 invariant[index-in-range] 0 <= i && i <= len(ops)
 //@   loop 0 decreases len(ops) - i
 //@   modifies *
@@ -302,6 +305,8 @@ package datatypes
 //@   props C09 C03 C15
 //@   requires txWF(its) && op != nil && (ctx != nil ==> allocated(ctx)) && rollbackSound()
 //@   requires[not-nested] !(its.isLocked && its.txCtx == ctx) ==> !its.isLocked
+//@   ghost-exit G.sentences := old(G.sentences) + 1
+//@   ensures[counted] G.sentences == old(G.sentences) + 1
 //@   requires[remote-has-id] !isLocal ==> op.GetID() != nil
 //@   requires[unit-so-far] its.isLocked && its.txCtx == ctx ==> opsIDed(its.txCtx.opBuffer)
 //@   replay-input locked0 = its.isLocked
@@ -314,7 +319,7 @@ package datatypes
 //@   ensures[refused-gives-the-id-back] old(idRoom(its.BaseDatatype)) && isLocal && result1 != nil ==> its.opID.Seq == old(its.opID.Seq) && its.opID.Lamport == old(its.opID.Lamport)
 //@   ensures[accepted-consumes-one-id] old(idRoom(its.BaseDatatype)) && isLocal && result1 == nil ==> its.opID.Seq == old(its.opID.Seq) + 1
 //@   ensures[wf] txWF(its)
-//@   modifies @(*TransactionDatatype).BeginTransaction, @(*TransactionDatatype).EndTransaction, @(*BaseDatatype).executeLocalBase, TransactionContext.opBuffer
+//@   modifies @(*TransactionDatatype).BeginTransaction, @(*TransactionDatatype).EndTransaction, @(*BaseDatatype).executeLocalBase, TransactionContext.opBuffer, G:sentences
 
 // ghost: number of operations executed through SentenceInTx for remote units
 //@ ghost field G.sentences mathint
@@ -342,6 +347,7 @@ package datatypes
 //@   props C09
 //@   requires txWF(its) && !its.isLocked && rollbackSound() && opsWF(transaction) && (currentTxCtx != nil ==> allocated(currentTxCtx)) && currentTxCtx != its.txCtx
 //@   loop 0 invariant[state] txWF(its) && rollbackSound() && (len(old(transaction)) > 1 ? its.isLocked && its.txCtx == txCtx && opsIDed(its.txCtx.opBuffer) : !its.isLocked)
-//@   ensures[unit-without-marker-refused] len(transaction) > 1 && old(transaction[0].OpType) != model.TypeOfOperation_TRANSACTION ==> result1 != nil && len(its.rollbackOps) == old(len(its.rollbackOps))
+//@   loop 0 invariant[only-checked-units-run] len(old(transaction)) > 1 ==> old(transaction[0].OpType) == model.TypeOfOperation_TRANSACTION && operations.announced(old(transaction[0])) == len(old(transaction))
+//@   ensures[miscounted-unit-applies-nothing] len(transaction) > 1 && (old(transaction[0].OpType) != model.TypeOfOperation_TRANSACTION || operations.announced(old(transaction[0])) != len(transaction)) ==> result1 != nil && G.sentences == old(G.sentences)
 //@   ensures[always-unlocked] !its.isLocked
 //@   modifies *
